@@ -405,7 +405,8 @@ def run(pid, tier_, replay=None):
     for k, v in sorted(clusters.items(), key=lambda kv: -kv[1])[:12]:
         print("  cluster %4d x %s" % (v, k))
     rc = C.verdict(pid, found)
-    C.write_evidence(pid, tier_, "exploration", cov, assumptions, len(found))
+    import registry
+    C.write_evidence(pid, tier_, registry.CHECKS[pid]["level"], cov, assumptions, len(found))
     print("%s: %d streams, %d batches, %d items round-tripped, %d events judged by TLC, %d distinct non-trivial; %d violations"
           % (pid, len(stats), cov["evaluations"], cov["items_round_tripped"], nev, len(sigs), len(found)))
     return rc
